@@ -217,6 +217,18 @@ def check(run, ctx):
             run.finding(K6, r.short, f"swallowed-in:{bad[0].qual.replace('src.linters.', '')}", f"{bad[0].qual}: {norm(bad[1])} (which leads to {c.name} validation) runs under a handler that catches ValueError", bad[0].loc)
         else:
             run.ok(K6, r.short, f"{n_sites} call sites between check() and {c.name} construction, none under a ValueError/Exception handler")
+    # config classes handed over as a value (load_linter_config(context, key, ConfigClass)): the call is `<param>.from_dict(...)`,
+    # which the call graph cannot resolve - every from_dict call site of src is looked at directly
+    n_fd = 0
+    for f in sorted(repo.funcs.values(), key=lambda x: x.qual):
+        for n in ast.walk(f.node):
+            if isinstance(n, ast.Call) and call_name(n) == "from_dict" and isinstance(n.func, ast.Attribute):
+                n_fd += 1
+                if is_caught(f.node, n, "ValueError"):
+                    run.finding(K6, f.qual.replace("src.", ""), f"from_dict-under-handler:{norm(n.func.value)}", f"{f.qual}: {norm(n)} runs under a handler that catches ValueError: the validation error of the configuration (for instance of a per-language value) is handled locally instead of ending the run with exit 2", f"{f.module.rel}:{n.lineno}")
+                else:
+                    run.ok(K6, f"{f.qual.replace('src.', '')}:{norm(n.func.value)}.from_dict", "not under a ValueError/Exception handler")
+    run.require(n_fd >= 10, f"K6: only {n_fd} from_dict call sites found")
     w = repo.func(f"{ORCH}._lint_file_worker")
     lf = [n for n in ast.walk(w.node) if isinstance(n, ast.Call) and call_name(n) == "lint_file"]
     run.require(bool(lf), "_lint_file_worker no longer calls lint_file")
@@ -529,6 +541,56 @@ def _k7(run, ctx, L, K7):
                 run.finding(K7, f"{h.name}[{k}]", f"missing-language-levels:{missing}", f"{c.name}.from_dict prefers {sec}.<language>.{k} over {sec}.{k}, but {h.name} does not write the {missing} level(s): a per-language value in the config file beats the command-line option", h.loc)
             else:
                 run.ok(K7, f"{h.name}[{k}]", f"written at section level and for {sorted(have)}")
+    # precedence in time: nothing that (re)loads a configuration file runs after the override was written
+    cg = ctx.cg
+    PARSERS = ("src.core.config_parser.parse_config_file", "src.core.config_parser.parse_yaml", "src.core.config_parser.parse_json", "src.core.config_parser.parse_pyproject_toml")
+    n_ord = 0
+
+    def _replaces_config(f):
+        """f writes `<param>.config = ...`, `<param>.config.update(...)` or `<param>.config[...] = ...` for a parameter other than self"""
+        ps = {a.arg for a in f.node.args.posonlyargs + f.node.args.args + f.node.args.kwonlyargs} - {"self", "cls"}
+        for n in ast.walk(f.node):
+            tg = None
+            if isinstance(n, (ast.Assign, ast.AugAssign, ast.AnnAssign)):
+                tg = n.targets[0] if isinstance(n, ast.Assign) else n.target
+                if isinstance(tg, ast.Subscript):
+                    tg = tg.value
+            elif isinstance(n, ast.Call) and isinstance(n.func, ast.Attribute) and n.func.attr in ("update", "setdefault", "clear"):
+                tg = n.func.value
+            if isinstance(tg, ast.Attribute) and tg.attr == "config" and isinstance(tg.value, ast.Name) and tg.value.id in ps:
+                return True
+        return False
+
+    replacers = {f.qual for f in repo.funcs.values() if f.parent is None and f.module.name.startswith("src.cli") and not (f.name.startswith("_apply_") or f.name in ("set_config_value", "ensure_config_section")) and _replaces_config(f)}
+    run.require(len(replacers) >= 2, f"K7: only {len(replacers)} CLI functions that load a configuration file into an orchestrator found (load_config_file and _load_dry_config_file confirmed)")
+    for h in helpers:
+        for site in cg.sites_calling(h.qual):
+            g = repo.funcs.get(site["caller"])
+            if g is None:
+                continue
+            calls = sorted([n for n in ast.walk(g.node) if isinstance(n, ast.Call)], key=lambda n: (n.lineno, n.col_offset))
+            hcall = next((n for n in calls if call_name(n) == h.name), None)
+            if hcall is None:
+                continue
+            n_ord += 1
+            late = None
+            for n in calls:
+                if (n.lineno, n.col_offset) <= (hcall.lineno, hcall.col_offset) or n is hcall:
+                    continue
+                st = cg.site_of(g.module.name, n)
+                tgts = set(st["callees"]) if st is not None else set()
+                if not tgts:
+                    continue
+                rch = cg.reach(tgts, resolved_only=True)
+                hit = next((p_ for p_ in sorted(replacers) if p_ in rch), None)
+                if hit is not None:
+                    late = (n, hit)
+                    break
+            if late is None:
+                run.ok(K7, f"{g.name} order", f"{h.name}(...) runs after every configuration file has been loaded")
+            else:
+                run.finding(K7, f"{g.name} order", f"file-after-override:{call_name(late[0])}", f"{g.name} calls {call_name(late[0])}(...) (which loads a configuration file into the orchestrator through {late[1].rsplit('.', 1)[1]}) after {h.name}(...): the section read from the file replaces the value the command-line option has just written, so the file beats the option", f"{g.module.rel}:{late[0].lineno}")
+    run.require(n_ord >= 4, f"K7: only {n_ord} call sites of the override helpers found")
 
 
 def _k8(run, ctx, K8):
